@@ -11,7 +11,7 @@ TRUSTED_BASE = [
     "Lean 4.33.0 kernel; axioms per theorem under coverage.theorems",
     "model FsDb/Model/Async.lean: small-step semantics of sync.Mutex / sync.Cond (ticket taken under the lock, Signal/Broadcast wake only enqueued waiters, no spurious wake-ups) / WaitGroup / atomic flag (modelled, DESIGN §6); bytes.Buffer as a byte list; read size = min(cap, available)",
     "tie: skeleton texts of readWriter.{Read,Write,Close,SetError,checkErr}, inline Create, streamwriter, external Create; enforced schedules on the real readWriter (hook points rd.beforeWait, cl.start + operation boundaries)",
-    "liveness: 'no stuck state' + decreasing writer measure are theorems; that a fair Go scheduler then lets Close return is trusted",
+    "liveness is a theorem of the model (C12_close_returns: every step of either goroutine decreases a natural number, no fairness assumed); that the Go scheduler keeps running a goroutine that can run is trusted",
 ]
 ASSUMPTIONS = ["one writer goroutine per created file", "the storing side reads until io.EOF (io.Copy)"]
 WITNESSES = "3,0,3:W,S,S,S,W,W,W,W,W;:S,W,W,S;:W,S,W,S"
